@@ -19,4 +19,8 @@ PROPS = {
         "rule": "as C03 with a TSA-conformant base chain, plus all 16 subsets of {timeStamping, codeSigning, any, unknown OID} x both criticalities as the leaf EKU for chain lengths 1..3; observed through ValidateTimestampingCertChain and through the revocation validator configured with purpose.Timestamping",
         "assumptions": ["crypto/x509 parsing and signature checks are oracles; WF (EKU criticality code in {0,1,2}, non-empty ExtKeyUsage implies the extension is present) is a fact about crypto/x509 parsing"],
     },
+    "C10": {
+        "claimed": False,
+        "rule": "real CRLs (x509.CreateRevocationList) delivered for the leaf's single distribution point: every single entry (reasons 0..10 x 6 invalidity shapes x critical flag) in base or delta; ordered pairs over a reduced alphabet split base/delta in every way; sampled lists of 2..6 entries over the full alphabet; signing time zero and non-zero; non-trivial = at least one entry for the certificate's serial",
+    },
 }
